@@ -132,6 +132,9 @@ def parse_config_file(path: str, kwargs: dict):
         elif key.lower() == "meta-version":
             kwargs["meta_version"] = val
 
+        elif key.lower() == "out":
+            kwargs["outfile"] = val
+
         elif val.lower() == "true":
             kwargs[key.lower()] = True
 
